@@ -6,8 +6,9 @@
       ra2 <line> <start>             read_table_line_AUTOUGH2
       kfl <line> <k0,k1,..>          key_from_line
       tok <line> <I>                 row_tokens (the specification; tied to the Python oracle tokenizer)
-      demo -                         the lines of the demonstration listing of Witness2.v (hex, comma separated), so that the
+      demo -|A                       the lines of the demonstration listing of Witness2.v (A: the AUTOUGH2 one of Witness3.v), so that the
                                      real reader can be run on the very text the Coq examples are about
+      achk - <tags> <line> <line> ...   the same for an AUTOUGH2 listing (afile sets = the lines, CheckAUT.afile_check = Some _)
       fchk <sim> <tags> <line> <line> ...
                                      the listing abstracted into result sets / tables (one role tag per line, assigned by
                                      an independent scan): is it a rendered listing to which the whole-file theorem applies?
@@ -18,7 +19,7 @@
 From Coq Require Import Ascii String List Bool ZArith NArith.
 From PTBase Require Import Exn PyStr PyNum PyVal Wire.
 From PTModel Require Import Fortran.
-From P Require Import Model Table Reader TableT2 SetT2 FileT2 CodecT2 CheckT2 Witness2.
+From P Require Import Model Table Reader TableT2 SetT2 FileT2 CodecT2 CheckT2 Witness2 TableAUT FileAUT CheckAUT Witness3.
 Import ListNotations.
 Open Scope char_scope.
 
@@ -246,15 +247,108 @@ Definition run_fchk (sm tags : str) (lines : list str) : str :=
            end
   end.
 
+(** *** AUTOUGH2: tags p lines before a result set, K the keyword line that starts it, h the three header lines of a table,
+    k keyword line, c caption, b blank, H column header, B blank, r row, z closing keyword line, a the line after it,
+    n the keyword line before the next table, x lines after the last table *)
+Definition parse_atable (l : list tl_t) : option (atable * list tl_t) :=
+  match l with
+  | ("h", t1) :: ("h", t2) :: ("h", t3) :: ("k", k1) :: ("c", cap) :: ("b", b1) :: ("H", hdr) :: ("B", b2) :: ("r", row0) :: l1 =>
+      let (more, l2) := span_tag "r" l1 in
+      match l2, table_type_AUT (slice 1 6 k1) with
+      | ("z", kend) :: ("a", aft) :: l3, Some nm =>
+          Some ({| a_name := nm; a_t1 := t1; a_t2 := t2; a_t3 := t3; a_k1 := k1; a_cap := cap; a_b1 := b1; a_hdr := hdr; a_b2 := b2;
+                   a_row0 := row0; a_more := more; a_kend := kend; a_after := aft |}, l3)
+      | _, _ => None
+      end
+  | _ => None
+  end.
+Fixpoint parse_amore (fuel : nat) (l : list tl_t) : list (str * atable) * list tl_t :=
+  match fuel with
+  | O => ([], l)
+  | S f => match l with
+           | ("n", k) :: l1 => match parse_atable l1 with
+                               | Some (t, l2) => let (m, l3) := parse_amore f l2 in ((k, t) :: m, l3)
+                               | None => ([], l)
+                               end
+           | _ => ([], l)
+           end
+  end.
+Definition parse_aset (l : list tl_t) : option (aset * list tl_t) :=
+  let (pre, l1) := span_tag "p" l in
+  match l1 with
+  | ("K", kw) :: l2 =>
+      match parse_atable l2 with
+      | Some (t0, l3) =>
+          let (more, l4) := parse_amore (length l3) l3 in
+          let (post, l5) := span_tag "x" l4 in
+          Some ({| s_pre := pre; s_kwl := kw; s_first := t0; s_more := more; s_post := post |}, l5)
+      | None => None
+      end
+  | _ => None
+  end.
+Fixpoint parse_asets (fuel : nat) (l : list tl_t) : option (list aset) :=
+  match l with
+  | [] => Some []
+  | _ => match fuel with
+         | O => None
+         | S f => match parse_aset l with
+                  | Some (x, l') => match parse_asets f l' with Some r => Some (x :: r) | None => None end
+                  | None => None
+                  end
+         end
+  end.
+Definition why_aout (sets : list aset) : str :=
+  match sets with
+  | [] => s2l "no-result-set"
+  | x0 :: more =>
+      match find_false aset_okb sets 0 with
+      | Some k => s2l "aset_ok " ++ show_nat k
+      | None =>
+          if negb (forallb no_shortb (afile sets)) then s2l "short-output"
+          else if negb (stops_okb sets) then s2l "a-table-keyword-follows-the-last-table"
+          else match find_false (fun t => match ashape_check t with Some _ => true | None => false end) (aset_tables x0) 0 with
+               | Some j => s2l "table_shape " ++ show_nat j
+               | None =>
+                   match ashapes (aset_tables x0) with
+                   | None => s2l "shapes"
+                   | Some Ts =>
+                       let names := map a_name (aset_tables x0) in
+                       if negb (nodupb str_eqb names) then s2l "names-repeat"
+                       else if negb (str_eqb (a_name (s_first x0)) n_element) then s2l "first-not-element"
+                       else match find_false (alike_okb names Ts) sets 0 with
+                            | Some k => s2l "set_like " ++ show_nat k
+                            | None => s2l "?"
+                            end
+                   end
+               end
+      end
+  end.
+Definition run_achk (tags : str) (lines : list str) : str :=
+  let file := map unhex_fast lines in
+  match parse_asets (S (length file)) (combine tags file) with
+  | None => s2l "OUT parse"
+  | Some sets =>
+      if negb (lines_eqb (afile sets) file) then s2l "OUT render-differs"
+      else match afile_check sets with
+           | Some Ts => flatten ([s2l "INCLASS sets="; show_nat (length sets); s2l " tables="; show_nat (length Ts); s2l " rows="]
+                                 ++ show_nats (map (fun T => length (lt_rows T)) Ts))
+           | None => s2l "OUT " ++ why_aout sets
+           end
+  end.
+
 Definition run_case (line : str) : str :=
-  match (match line with "f" :: _ => split_fast tab line | _ => fields line end) with
+  match (match line with "f" :: _ | "a" :: _ => split_fast tab line | _ => fields line end) with
   | k :: h :: args =>
       let s := unhex h in
       if str_eqb k (s2l "file") then
         match args with
         | sk :: idx :: lines => run_file h sk idx lines
         | _ => s2l "BADCASE" end
-      else if str_eqb k (s2l "demo") then flatten (sep_list comma (map hex demo_file))
+      else if str_eqb k (s2l "demo") then flatten (sep_list comma (map hex (if str_eqb h (s2l "A"%string) then ademo_file else demo_file)))
+      else if str_eqb k (s2l "achk") then
+        match args with
+        | tags :: lines => run_achk tags lines
+        | _ => s2l "BADCASE" end
       else if str_eqb k (s2l "fchk") then
         match args with
         | tags :: lines => run_fchk h tags lines
